@@ -301,6 +301,10 @@ def structure_rules(ctx, chk, G, gname, pairing, rule="C08.2"):
         elif want_tile:
             chk.ok(rule, where, "game %s: tile rewards (row-major flatten of the rewards table) sit on the Light block" % gname)
     # tails
+    if "final_states" not in G.dict:
+        chk.violation(rule, where, "game %s is emitted without a 'final_states' entry (keys %s)" % (gname, sorted(G.dict)), expected="final_states = [Win]", found=sorted(G.dict),
+                      construct="%s final states missing" % gname)
+        return
     fin = G.dict["final_states"]
     ce_case = case
     from ..genabs import CaseEval
